@@ -15,7 +15,9 @@
 (* GenerateDataKey / Encrypt operations in genUp / encUp are available,    *)
 (* and then unwrapped once (DecryptKey) by a possibly different plugin     *)
 (* with its own region set ucfg / preferred upref while the regional       *)
-(* Decrypt operations in decUp are available.                              *)
+(* Decrypt operations in decUp are available - and, the outage over, once  *)
+(* more by that same plugin instance with every region available (the      *)
+(* plugins are long-lived: an earlier fail-over must leave no trace).       *)
 (*                                                                         *)
 (* The module has two layers:                                              *)
 (*  - the DESIGN (actions Wrap / Unwrap): the algorithm of the code, a     *)
@@ -35,12 +37,13 @@ CONSTANTS Regions,    \* universe of region names; every non-empty subset is a c
                       \*   "pref": same regions, any preferred region
                       \*   "any" : any non-empty region set, any preferred region in it
 
-VARIABLES phase,      \* "idle" -> "configured" -> "wrapped" -> "done"
+VARIABLES phase,      \* "idle" -> "configured" -> "wrapped" -> "done" -> "redone"
           c,          \* the case (configuration + availability)
           w,          \* outcome of the wrap
-          u           \* outcome of the unwrap
+          u,          \* outcome of the unwrap
+          u2          \* outcome of the second unwrap by the same instance after every region has recovered
 
-vars == <<phase, c, w, u>>
+vars == <<phase, c, w, u, u2>>
 
 NE(S) == SUBSET S \ {{}}
 Range(s) == {s[i] : i \in 1..Len(s)}
@@ -126,7 +129,10 @@ UnwrapResult(k, entries, ord) ==
 UCfgs(wr) == IF Family = "any" THEN NE(Regions) ELSE {wr}
 UPrefs(ur, pr) == IF Family = "same" THEN {pr} ELSE ur
 
-Init == phase = "idle" /\ c = NoCase /\ w = NoWrap /\ u = NoUnwrap
+Init == phase = "idle" /\ c = NoCase /\ w = NoWrap /\ u = NoUnwrap /\ u2 = NoUnwrap
+
+\* the case as it stands for the second unwrap: the unwrapping side's regions are all available again
+Recovered(k) == [k EXCEPT !.decUp = k.ucfg]
 
 \* Decrypt availability is only varied for regions that can have an entry at all (those the wrapping side knows)
 ConfigureWith(Emit(_)) ==
@@ -137,31 +143,38 @@ ConfigureWith(Emit(_)) ==
            LET k == [wplug |-> wp, uplug |-> up, wcfg |-> wr, wpref |-> pr, genUp |-> g, encUp |-> e,
                      ucfg |-> ur, upref |-> upf, decUp |-> d] IN
            /\ c' = k /\ Emit(k)
-  /\ phase' = "configured" /\ UNCHANGED <<w, u>>
+  /\ phase' = "configured" /\ UNCHANGED <<w, u, u2>>
 
 Configure == ConfigureWith(LAMBDA k : TRUE)
 
 Wrap == /\ phase = "configured"
         /\ \E ord \in Orders(c.wcfg, c.wpref) : w' = WrapResult(c, ord)
-        /\ phase' = "wrapped" /\ UNCHANGED <<c, u>>
+        /\ phase' = "wrapped" /\ UNCHANGED <<c, u, u2>>
 
 Unwrap == /\ phase = "wrapped" /\ w.ok
           /\ \E ord \in Orders(c.ucfg, c.upref) : u' = UnwrapResult(c, w.entries, ord)
-          /\ phase' = "done" /\ UNCHANGED <<c, w>>
+          /\ phase' = "done" /\ UNCHANGED <<c, w, u2>>
 
-Next == Configure \/ Wrap \/ Unwrap
+\* the same instance again, outage over: DecryptKey keeps no state, so this is simply UnwrapResult on the recovered case
+Reunwrap == /\ phase = "done"
+            /\ \E ord \in Orders(c.ucfg, c.upref) : u2' = UnwrapResult(Recovered(c), w.entries, ord)
+            /\ phase' = "redone" /\ UNCHANGED <<c, w, u>>
+
+Next == Configure \/ Wrap \/ Unwrap \/ Reunwrap
 Spec == Init /\ [][Next]_vars
 
 ---------------------------------------------------------------------------
 (* The design meets the property.                                          *)
-TypeOK == /\ phase \in {"idle", "configured", "wrapped", "done"}
+TypeOK == /\ phase \in {"idle", "configured", "wrapped", "done", "redone"}
           /\ phase # "idle" => IsCase(c)
           /\ w.entries \subseteq c.wcfg
-WrapMeetsC17 == phase \in {"wrapped", "done"} => WrapAllowed(c, w) /\ GenPreferredFirst(c, w)
-UnwrapMeetsC17 == phase = "done" => UnwrapAllowed(c, w.entries, u)
+WrapMeetsC17 == phase \in {"wrapped", "done", "redone"} => WrapAllowed(c, w) /\ GenPreferredFirst(c, w)
+UnwrapMeetsC17 == phase \in {"done", "redone"} => UnwrapAllowed(c, w.entries, u)
+\* ... and the instance behaves like a fresh one afterwards (preferred region first again)
+ReunwrapMeetsC17 == phase = "redone" => UnwrapAllowed(Recovered(c), w.entries, u2)
 \* the headline, spelled out once more without the helper predicates: any surviving region can unwrap
-AnySurvivorUnwraps == phase = "done" =>
+AnySurvivorUnwraps == phase \in {"done", "redone"} =>
    (u.ok <=> \E r \in c.ucfg : r \in w.entries /\ r \in c.decUp)
 \* same configuration on both sides, nothing failed at wrap time: every single region on its own is enough
-EveryRegionSuffices == (phase = "done" /\ c.ucfg = c.wcfg /\ c.encUp = c.wcfg /\ c.decUp # {}) => u.ok
+EveryRegionSuffices == (phase \in {"done", "redone"} /\ c.ucfg = c.wcfg /\ c.encUp = c.wcfg /\ c.decUp # {}) => u.ok
 =============================================================================
